@@ -28,7 +28,8 @@ REQUIRED_MONITORS = ('crash_image_read', 'prefix_read', 'inprogress_prefix_read'
 REQUIRED_CLASSES = ('buffering:default', 'buffering:line', 'buffering:flush-per-write', 'buffering:tiny-13',
                     'count:declared', 'count:backfilled', 'vel:yes', 'vel:no', 'crash:inside-close',
                     'crash:between-records', 'crash:mid-record', 'prefix:shipped', 'prefix:generated',
-                    'accepted:complete-file', 'accepted:inside-box-line')
+                    'accepted:complete-file', 'accepted:inside-box-line', 'api:extrapolate_system', 'api:write_gro',
+                    'api:write_comparative_gro')
 RULE = ('fault space: (writer run x buffering model x writer statement boundary) -> distinct on-disk images; every byte '
         'prefix of each in-progress stream; every byte prefix of complete files. A case is one (image or prefix) fed to '
         'the reader. Non-trivial: the image is non-empty and is not the complete file. distinct = distinct images per '
@@ -84,6 +85,8 @@ def cases(ctx):
         yield {'kind': 'generated', 'i': i}
     for i in range(4 if ctx.tier == 'quick' else 48):
         yield {'kind': 'kill', 'i': i}
+    for i in range(6 if ctx.tier == 'quick' else 120):
+        yield {'kind': 'api', 'i': i}
 
 
 def read_image(path):
@@ -349,8 +352,63 @@ def run_kill(ctx, case):
     ctx.nontrivial(('kill', i))
 
 
+def run_api(ctx, case):
+    """Crash points of the writer when it is driven by the library's own writing
+    APIs: Manager.extrapolate_system, Molecule.write_gro, Alignment.write_comparative_gro."""
+    import gaddlemaps.parsers as P
+    from gaddlemaps import Alignment
+    from .. import world
+    i = case['i']
+    rng = ctx.rng('api', i)
+    model = faults.BUFFER_MODELS[i % len(faults.BUFFER_MODELS)]
+    root = os.path.join(_tmp['dir'], f'api{os.getpid()}_{i}')
+    w = world.make_world(rng, root, nspecies=2, ninst=(1, 3), small_prob=0.3)
+    man, first_out = world.run_pipeline(w, scale=0.5, steps_factor=2, seed=ctx.libseed('api', i))
+    which = ['extrapolate_system', 'write_gro', 'write_comparative_gro'][i % 3]
+    out = os.path.join(root, 'api_out.gro')
+    scratch = os.path.join(root, 'api_scratch.gro')
+    ali = next(iter(man.complete_correspondence.values()))
+
+    def work():
+        if which == 'extrapolate_system':
+            man.extrapolate_system(out)
+        elif which == 'write_gro':
+            ali.end.write_gro(out)
+        else:
+            ali.write_comparative_gro(out)
+    rec = faults.CrashRecorder(out)
+    np.random.seed(1)
+    try:
+        with bus.patched(P, 'open', faults.make_open(model)):
+            rec.run(work)
+    except Exception as exc:  # noqa
+        ctx.violation(f'writing-api-raises:{which}:{type(exc).__name__}', str(exc)[:200])
+        shutil.rmtree(root, ignore_errors=True)
+        return
+    with open(out, 'rb') as fh:
+        complete = fh.read()
+    ok, recs = read_image(out)
+    if not ok:
+        ctx.violation('complete-file-rejected', f'{which}: the finished file cannot be read: {recs}')
+        shutil.rmtree(root, ignore_errors=True)
+        return
+    complete_recs = [tuple(r) for r in recs]
+    for idx, image in enumerate(rec.images):
+        if image is None:
+            continue
+        judge_image(ctx, image, complete, complete_recs, scratch,
+                    {'api': which, 'buffering': model, 'image_index': idx,
+                     'first_seen_at': next((f'{l}:{ln}' for l, ln, k in rec.events if k == idx), None)}, 'crash_image_read')
+        if image and image != complete:
+            ctx.nontrivial(('api', i, which, idx))
+    ctx.hit('api:' + which)
+    ctx.count('crash_events', len(rec.events))
+    ctx.count('distinct_crash_images', len(rec.images))
+    shutil.rmtree(root, ignore_errors=True)
+
+
 def run_case(ctx, case):
-    {'writer': run_writer, 'shipped': run_shipped, 'generated': run_generated, 'kill': run_kill}[case['kind']](ctx, case)
+    {'writer': run_writer, 'shipped': run_shipped, 'generated': run_generated, 'kill': run_kill, 'api': run_api}[case['kind']](ctx, case)
 
 
 def finalize(ctx):
